@@ -596,7 +596,7 @@ def run(ctx):
         "begin at any pass; states = distinct event logs / observations"
     )
     ctx.assumptions += [
-        "virtual loop; loop.create_server is a socket-less fake so that _run_app can start its site; _run_app is stopped by cancelling its task",
+        "virtual loop; aiohttp.web_runner.aiofastnet is rebound to None so that sites start through loop.create_server, a socket-less fake: _run_app reaches its serving state and is stopped by cancelling its task",
         "reverse order is judged per application (parent's and sub-application's contexts separately)",
         f"shutdown_timeout={TIMEOUT}; 'at once' = within 4 loop passes; grace of 1 s of virtual time on the 2x-timeout bound (timeouts are ceiled)",
     ]
